@@ -198,50 +198,42 @@ theorem replace_residual_cut (S : Schema) (hS : S ∈ familySchemas) (tr tr1 : T
     hattrs f t src a b sl hsrc hcut hrun h hres
 
 /-- `PM.C04.replaceOp_residual` with its schema guards discharged for the bundled schema family -/
-theorem replaceOp_residual (S : Schema) (hS : S ∈ domFamilySchemas) (tr tr1 : Tr)
+theorem replaceOp_residual (S : Schema) (hS : S ∈ familySchemas) (tr tr1 : Tr)
     (hlen : tr.steps.length = tr.docs.length) (hI : FamilyInv S tr.doc) (f t : Nat) (sl : Slice)
     (h : tr.runOp S (.replace f t sl) = some tr1) (hres : EditResidual S (.replace f t sl) tr tr1) :
     OpResidual S (.replace f t sl) tr tr1 :=
-  PM.C04.replaceOp_residual S (family_det _ (domFamily_sub _ hS)) (family_fillersOK _ (domFamily_sub _ hS))
-    (family_wrapOK _ (domFamily_sub _ hS)) (family_labelsOK _ (domFamily_sub _ hS))
-    (family_leafOk _ (domFamily_sub _ hS)) (family_textStableC _ (domFamily_sub _ hS))
-    (family_closable _ (domFamily_sub _ hS)) tr tr1 hlen hI f t sl h hres
+  PM.C04.replaceOp_residual S (family_det _ hS) (family_fillersOK _ hS) (family_wrapOK _ hS)
+    (family_labelsOK _ hS) (family_leafOk _ hS) (family_textStableC _ hS) (family_closable _ hS) tr tr1 hlen hI
+    f t sl h hres
 
 /-- `PM.C04.editHistory_undo_bmp` with its schema guards discharged for the bundled schema family -/
-theorem editHistory_undo_bmp (S : Schema) (hS : S ∈ domFamilySchemas) (doc : Node) (ops : List Op) (tr' : Tr)
+theorem editHistory_undo_bmp (S : Schema) (hS : S ∈ familySchemas) (doc : Node) (ops : List Op) (tr' : Tr)
     (hd : S.checkNode doc = true) (hn : fnorm doc.kids = true) (hb : bmpDoc doc = true)
     (hall : ∀ op ∈ ops, editOp op = true) (h : (Tr.init doc).runOps S ops = some tr')
     (hres : OpsAll S (EditResidual S) (Tr.init doc) ops) :
     tr'.undo S = .ok doc ∧ FamilyInv S tr'.doc :=
-  PM.C04.editHistory_undo_bmp S (family_compatTrans _ (domFamily_sub _ hS))
-    (textLoop_of_B _ (family_textLoop _ (domFamily_sub _ hS))) (family_det _ (domFamily_sub _ hS))
-    (family_fillersOK _ (domFamily_sub _ hS)) (family_wrapOK _ (domFamily_sub _ hS))
-    (family_labelsOK _ (domFamily_sub _ hS)) (family_leafOk _ (domFamily_sub _ hS))
-    (family_textStableC _ (domFamily_sub _ hS)) (family_closable _ (domFamily_sub _ hS)) doc ops tr' hd hn hb
-    hall h hres
+  PM.C04.editHistory_undo_bmp S (family_compatTrans _ hS) (textLoop_of_B _ (family_textLoop _ hS))
+    (family_det _ hS) (family_fillersOK _ hS) (family_wrapOK _ hS) (family_labelsOK _ hS) (family_leafOk _ hS)
+    (family_textStableC _ hS) (family_closable _ hS) doc ops tr' hd hn hb hall h hres
 
 /-- `PM.C04.editResidual_of'` with its schema guards discharged for the bundled schema family -/
-theorem editResidual_of' (S : Schema) (hS : S ∈ domFamilySchemas) (op : Op) (tr tr1 : Tr)
+theorem editResidual_of' (S : Schema) (hS : S ∈ familySchemas) (op : Op) (tr tr1 : Tr)
     (hlen : tr.steps.length = tr.docs.length) (hI : FamilyInv S tr.doc) (hb : bmpDoc tr.doc = true)
     (h : tr.runOp S op = some tr1) (hres : EditResidual' S op tr tr1) :
     EditResidual S op tr tr1 :=
-  PM.C04.editResidual_of' S (family_det _ (domFamily_sub _ hS)) (family_fillersOK _ (domFamily_sub _ hS))
-    (family_wrapOK _ (domFamily_sub _ hS)) (family_labelsOK _ (domFamily_sub _ hS))
-    (family_leafOk _ (domFamily_sub _ hS)) (family_textStableC _ (domFamily_sub _ hS))
-    (family_closable _ (domFamily_sub _ hS)) op tr tr1 hlen hI hb h hres
+  PM.C04.editResidual_of' S (family_det _ hS) (family_fillersOK _ hS) (family_wrapOK _ hS)
+    (family_labelsOK _ hS) (family_leafOk _ hS) (family_textStableC _ hS) (family_closable _ hS) op tr tr1 hlen
+    hI hb h hres
 
 /-- `PM.C04.editHistory_undo_bmp'` with its schema guards discharged for the bundled schema family -/
-theorem editHistory_undo_bmp' (S : Schema) (hS : S ∈ domFamilySchemas) (doc : Node) (ops : List Op) (tr' : Tr)
+theorem editHistory_undo_bmp' (S : Schema) (hS : S ∈ familySchemas) (doc : Node) (ops : List Op) (tr' : Tr)
     (hd : S.checkNode doc = true) (hn : fnorm doc.kids = true) (hb : bmpDoc doc = true)
     (hall : ∀ op ∈ ops, editOp op = true) (h : (Tr.init doc).runOps S ops = some tr')
     (hres : OpsAll S (EditResidual' S) (Tr.init doc) ops) :
     tr'.undo S = .ok doc ∧ FamilyInv S tr'.doc :=
-  PM.C04.editHistory_undo_bmp' S (family_compatTrans _ (domFamily_sub _ hS))
-    (textLoop_of_B _ (family_textLoop _ (domFamily_sub _ hS))) (family_det _ (domFamily_sub _ hS))
-    (family_fillersOK _ (domFamily_sub _ hS)) (family_wrapOK _ (domFamily_sub _ hS))
-    (family_labelsOK _ (domFamily_sub _ hS)) (family_leafOk _ (domFamily_sub _ hS))
-    (family_textStableC _ (domFamily_sub _ hS)) (family_closable _ (domFamily_sub _ hS)) doc ops tr' hd hn hb
-    hall h hres
+  PM.C04.editHistory_undo_bmp' S (family_compatTrans _ hS) (textLoop_of_B _ (family_textLoop _ hS))
+    (family_det _ hS) (family_fillersOK _ hS) (family_wrapOK _ hS) (family_labelsOK _ hS) (family_leafOk _ hS)
+    (family_textStableC _ hS) (family_closable _ hS) doc ops tr' hd hn hb hall h hres
 
 /-- `PM.C04.editResidual'_of_hyps` with its schema guards discharged for the bundled schema family -/
 theorem editResidual'_of_hyps (S : Schema) (hS : S ∈ familySchemas) (op : Op) (tr tr1 : Tr)
@@ -251,71 +243,57 @@ theorem editResidual'_of_hyps (S : Schema) (hS : S ∈ familySchemas) (op : Op) 
   PM.C04.editResidual'_of_hyps S (textLoop_of_B _ (family_textLoop _ hS)) op tr tr1 hlen hI hb h hres
 
 /-- `PM.C04.editHistory_undo` with its schema guards discharged for the bundled schema family -/
-theorem editHistory_undo (S : Schema) (hS : S ∈ domFamilySchemas) (doc : Node) (ops : List Op) (tr' : Tr)
+theorem editHistory_undo (S : Schema) (hS : S ∈ familySchemas) (doc : Node) (ops : List Op) (tr' : Tr)
     (hd : S.checkNode doc = true) (hn : fnorm doc.kids = true) (hb : bmpDoc doc = true)
     (hall : ∀ op ∈ ops, editOp op = true) (h : (Tr.init doc).runOps S ops = some tr')
     (hres : OpsAll S (EditHyps S) (Tr.init doc) ops) :
     tr'.undo S = .ok doc ∧ FamilyInv S tr'.doc :=
-  PM.C04.editHistory_undo S (family_compatTrans _ (domFamily_sub _ hS))
-    (textLoop_of_B _ (family_textLoop _ (domFamily_sub _ hS))) (family_det _ (domFamily_sub _ hS))
-    (family_fillersOK _ (domFamily_sub _ hS)) (family_wrapOK _ (domFamily_sub _ hS))
-    (family_labelsOK _ (domFamily_sub _ hS)) (family_leafOk _ (domFamily_sub _ hS))
-    (family_textStableC _ (domFamily_sub _ hS)) (family_closable _ (domFamily_sub _ hS)) doc ops tr' hd hn hb
-    hall h hres
+  PM.C04.editHistory_undo S (family_compatTrans _ hS) (textLoop_of_B _ (family_textLoop _ hS)) (family_det _ hS)
+    (family_fillersOK _ hS) (family_wrapOK _ hS) (family_labelsOK _ hS) (family_leafOk _ hS)
+    (family_textStableC _ hS) (family_closable _ hS) doc ops tr' hd hn hb hall h hres
 
 /-- `PM.C04.deleteOp_residual` with its schema guards discharged for the bundled schema family -/
-theorem deleteOp_residual (S : Schema) (hS : S ∈ domFamilySchemas) (tr tr1 : Tr)
+theorem deleteOp_residual (S : Schema) (hS : S ∈ familySchemas) (tr tr1 : Tr)
     (hlen : tr.steps.length = tr.docs.length) (hml : tr.maps.length = tr.steps.length) (hI : FamilyInv S tr.doc)
     (hb : bmpDoc tr.doc = true) (hattrs : S.nodeAttrsOK tr.doc = true) (f t : Nat) (hft : f ≤ t)
     (h : tr.runOp S (.replace f t Slice.empty) = some tr1) :
     OpResidual S (.replace f t Slice.empty) tr tr1 ∧ bmpDoc tr1.doc = true :=
-  PM.C04.deleteOp_residual S (family_compatTrans _ (domFamily_sub _ hS))
-    (textLoop_of_B _ (family_textLoop _ (domFamily_sub _ hS))) (family_det _ (domFamily_sub _ hS))
-    (family_fillersOK _ (domFamily_sub _ hS)) (family_wrapOK _ (domFamily_sub _ hS))
-    (family_labelsOK _ (domFamily_sub _ hS)) (family_leafOk _ (domFamily_sub _ hS))
-    (family_textStableC _ (domFamily_sub _ hS)) (family_closable _ (domFamily_sub _ hS)) tr tr1 hlen hml hI hb
-    hattrs f t hft h
+  PM.C04.deleteOp_residual S (family_compatTrans _ hS) (textLoop_of_B _ (family_textLoop _ hS))
+    (family_det _ hS) (family_fillersOK _ hS) (family_wrapOK _ hS) (family_labelsOK _ hS) (family_leafOk _ hS)
+    (family_textStableC _ hS) (family_closable _ hS) tr tr1 hlen hml hI hb hattrs f t hft h
 
 /-- `PM.C04.insertInlineOp_residual` with its schema guards discharged for the bundled schema family -/
-theorem insertInlineOp_residual (S : Schema) (hS : S ∈ domFamilySchemas) (tr tr1 : Tr)
+theorem insertInlineOp_residual (S : Schema) (hS : S ∈ familySchemas) (tr tr1 : Tr)
     (hlen : tr.steps.length = tr.docs.length) (hml : tr.maps.length = tr.steps.length) (hI : FamilyInv S tr.doc)
     (hb : bmpDoc tr.doc = true) (hattrs : S.nodeAttrsOK tr.doc = true) (f t : Nat) (hft : f ≤ t) (sl : Slice)
     (hsl : sl.inlineLeaves S = true) (hslv : sl.closedValid S = true) (hsb : sliceBmp sl = true)
     (h : tr.runOp S (.replace f t sl) = some tr1)
     (hnorm : HistAll (fun s _ _ => RecordedNorm s) (appended tr tr1) tr1.doc) :
     OpResidual S (.replace f t sl) tr tr1 ∧ bmpDoc tr1.doc = true :=
-  PM.C04.insertInlineOp_residual S (family_compatTrans _ (domFamily_sub _ hS))
-    (textLoop_of_B _ (family_textLoop _ (domFamily_sub _ hS))) (family_det _ (domFamily_sub _ hS))
-    (family_fillersOK _ (domFamily_sub _ hS)) (family_wrapOK _ (domFamily_sub _ hS))
-    (family_labelsOK _ (domFamily_sub _ hS)) (family_leafOk _ (domFamily_sub _ hS))
-    (family_textStableC _ (domFamily_sub _ hS)) (family_closable _ (domFamily_sub _ hS)) tr tr1 hlen hml hI hb
-    hattrs f t hft sl hsl hslv hsb h hnorm
+  PM.C04.insertInlineOp_residual S (family_compatTrans _ hS) (textLoop_of_B _ (family_textLoop _ hS))
+    (family_det _ hS) (family_fillersOK _ hS) (family_wrapOK _ hS) (family_labelsOK _ hS) (family_leafOk _ hS)
+    (family_textStableC _ hS) (family_closable _ hS) tr tr1 hlen hml hI hb hattrs f t hft sl hsl hslv hsb h
+    hnorm
 
 /-- `PM.C04.editHistory_undo'` with its schema guards discharged for the bundled schema family -/
-theorem editHistory_undo' (S : Schema) (hS : S ∈ domFamilySchemas) (doc : Node) (ops : List Op) (tr' : Tr)
+theorem editHistory_undo' (S : Schema) (hS : S ∈ familySchemas) (doc : Node) (ops : List Op) (tr' : Tr)
     (hd : S.checkNode doc = true) (hn : fnorm doc.kids = true) (hb : bmpDoc doc = true)
     (hall : ∀ op ∈ ops, editOp op = true) (h : (Tr.init doc).runOps S ops = some tr')
     (hres : OpsAll S (EditHyps' S) (Tr.init doc) ops) :
     tr'.undo S = .ok doc ∧ FamilyInv S tr'.doc :=
-  PM.C04.editHistory_undo' S (family_compatTrans _ (domFamily_sub _ hS))
-    (textLoop_of_B _ (family_textLoop _ (domFamily_sub _ hS))) (family_det _ (domFamily_sub _ hS))
-    (family_fillersOK _ (domFamily_sub _ hS)) (family_wrapOK _ (domFamily_sub _ hS))
-    (family_labelsOK _ (domFamily_sub _ hS)) (family_leafOk _ (domFamily_sub _ hS))
-    (family_textStableC _ (domFamily_sub _ hS)) (family_closable _ (domFamily_sub _ hS)) doc ops tr' hd hn hb
-    hall h hres
+  PM.C04.editHistory_undo' S (family_compatTrans _ hS) (textLoop_of_B _ (family_textLoop _ hS))
+    (family_det _ hS) (family_fillersOK _ hS) (family_wrapOK _ hS) (family_labelsOK _ hS) (family_leafOk _ hS)
+    (family_textStableC _ hS) (family_closable _ hS) doc ops tr' hd hn hb hall h hres
 
 /-- `PM.C04.insertInlineOp_residual'` with its schema guards discharged for the bundled schema family -/
-theorem insertInlineOp_residual' (S : Schema) (hS : S ∈ domFamilySchemas) (tr tr1 : Tr)
+theorem insertInlineOp_residual' (S : Schema) (hS : S ∈ familySchemas) (tr tr1 : Tr)
     (hlen : tr.steps.length = tr.docs.length) (hml : tr.maps.length = tr.steps.length) (hI : FamilyInv S tr.doc)
     (hb : bmpDoc tr.doc = true) (hattrs : S.nodeAttrsOK tr.doc = true) (f t : Nat) (hft : f ≤ t) (sl : Slice)
     (hsl : sl.inlineLeaves S = true) (hslv : sl.closedValid S = true) (hsb : sliceBmp sl = true)
     (hsn : fnorm sl.content = true) (h : tr.runOp S (.replace f t sl) = some tr1) :
     OpResidual S (.replace f t sl) tr tr1 ∧ bmpDoc tr1.doc = true :=
-  PM.C04.insertInlineOp_residual' S (family_compatTrans _ (domFamily_sub _ hS))
-    (textLoop_of_B _ (family_textLoop _ (domFamily_sub _ hS))) (family_det _ (domFamily_sub _ hS))
-    (family_fillersOK _ (domFamily_sub _ hS)) (family_wrapOK _ (domFamily_sub _ hS))
-    (family_labelsOK _ (domFamily_sub _ hS)) (family_leafOk _ (domFamily_sub _ hS))
-    (family_textStableC _ (domFamily_sub _ hS)) (family_closable _ (domFamily_sub _ hS)) tr tr1 hlen hml hI hb
-    hattrs f t hft sl hsl hslv hsb hsn h
+  PM.C04.insertInlineOp_residual' S (family_compatTrans _ hS) (textLoop_of_B _ (family_textLoop _ hS))
+    (family_det _ hS) (family_fillersOK _ hS) (family_wrapOK _ hS) (family_labelsOK _ hS) (family_leafOk _ hS)
+    (family_textStableC _ hS) (family_closable _ hS) tr tr1 hlen hml hI hb hattrs f t hft sl hsl hslv hsb hsn h
 
 end PM.Family.C04
